@@ -396,7 +396,7 @@ def run_sequence(cases, rrqs, limits):
                 req.idle.wait(0.002)
             transfer_threads = started[max(n_before, 1):]
             for t in transfer_threads:
-                t.join(60)
+                t.join(300)
                 if t.is_alive():
                     log.append(("hang",))
             for p in state["paths"]:
